@@ -258,10 +258,10 @@ std::string describe(const AnyCellmlElementPtr &it, const Labels &L, const Model
 struct Universe
 {
     ModelPtr m0, m1;
-    ComponentPtr c0, c1, c2, c3, d0;
-    VariablePtr v0, v1, v2, w0;
+    ComponentPtr c0, c1, c2, c3, c4, c5, d0; // c4 is a LOCAL child of the imported c2, c5 a local child of c4
+    VariablePtr v0, v1, v2, v3, v4, w0;
     UnitsPtr u0, u1, fu;
-    ResetPtr r0;
+    ResetPtr r0, r1;
     ImportSourcePtr is0, fis;
     Labels L;
     AnnotatorPtr ann;
@@ -301,8 +301,26 @@ struct Universe
         m0->addComponent(c0);
         c2->setImportSource(is0);
         c2->setImportReference("lc");
+        // locally defined components encapsulated UNDER the imported component (legal CellML 2.0): every carrier kind below an import
+        c4 = Component::create("c4");
+        c5 = Component::create("c5");
+        v3 = Variable::create("p");
+        v4 = Variable::create("q");
+        for (auto &v : {v3, v4}) { v->setUnits(u0); v->setInterfaceType("public_and_private"); }
+        c4->addVariable(v3);
+        c5->addVariable(v4);
+        r1 = Reset::create();
+        r1->setVariable(v3);
+        r1->setTestVariable(v3);
+        r1->setOrder(1);
+        r1->setTestValue(MATH);
+        r1->setResetValue(MATH);
+        c4->addReset(r1);
+        c4->addComponent(c5);
+        c2->addComponent(c4);
         m0->addComponent(c2);
         Variable::addEquivalence(v0, v1);
+        Variable::addEquivalence(v3, v4);
         // the other model: its items are foreign to m0
         m1 = Model::create("other");
         d0 = Component::create("d0");
@@ -323,14 +341,16 @@ struct Universe
         L.add(v0.get(), "v0"); L.add(v1.get(), "v1"); L.add(v2.get(), "v2"); L.add(w0.get(), "w0");
         L.add(u0.get(), "u0"); L.add(u1.get(), "u1"); L.add(fu.get(), "fu");
         L.add(r0.get(), "r0"); L.add(is0.get(), "is0"); L.add(fis.get(), "fis");
+        L.add(c4.get(), "c4"); L.add(c5.get(), "c5"); L.add(v3.get(), "v3"); L.add(v4.get(), "v4"); L.add(r1.get(), "r1");
         ann = Annotator::create();
     }
 
     // ---- the 16 editable carriers of m0
-    static constexpr int NCARRIER = 16;
+    static constexpr int NCARRIER = 27; // 0..15: the original carriers; 16..26: the carriers below the imported component
     static const char *carrierName(int k)
     {
-        static const char *N[] = {"model.id", "model.encapsulationId", "c0.id", "c1.id", "c1.encapsulationId", "v0.id", "v1.id", "mapping(v0,v1)", "connection(v0,v1)", "u0.id", "u1.id", "u0.unit[0].id", "r0.id", "r0.testValueId", "r0.resetValueId", "is0.id"};
+        static const char *N[] = {"model.id", "model.encapsulationId", "c0.id", "c1.id", "c1.encapsulationId", "v0.id", "v1.id", "mapping(v0,v1)", "connection(v0,v1)", "u0.id", "u1.id", "u0.unit[0].id", "r0.id", "r0.testValueId", "r0.resetValueId", "is0.id",
+                                  "c4.id", "c4.encapsulationId", "v3.id", "mapping(v3,v4)", "connection(v3,v4)", "r1.id", "r1.testValueId", "r1.resetValueId", "c5.id", "c5.encapsulationId", "v4.id"};
         return N[k];
     }
     void setCarrier(int k, const std::string &id)
@@ -352,12 +372,24 @@ struct Universe
         case 13: r0->setTestValueId(id); break;
         case 14: r0->setResetValueId(id); break;
         case 15: is0->setId(id); break;
+        case 16: c4->setId(id); break;
+        case 17: c4->setEncapsulationId(id); break;
+        case 18: v3->setId(id); break;
+        case 19: Variable::setEquivalenceMappingId(v3, v4, id); break;
+        case 20: Variable::setEquivalenceConnectionId(v3, v4, id); break;
+        case 21: r1->setId(id); break;
+        case 22: r1->setTestValueId(id); break;
+        case 23: r1->setResetValueId(id); break;
+        case 24: c5->setId(id); break;
+        case 25: c5->setEncapsulationId(id); break;
+        case 26: v4->setId(id); break;
         }
     }
     // ---- the 19 carriers of the pristine m0, in snapshot() key form (for the preids family)
     static const std::vector<std::string> &pristineKeys()
     {
-        static std::vector<std::string> k = {"model", "encap", "units:u0", "unit:u0[0]", "units:u1", "comp:c0", "cref:c0", "var:v0", "map:v0~v1", "conn:c0~c1", "reset:r0", "tv:r0", "rv:r0", "comp:c1", "cref:c1", "var:v1", "comp:c2", "import:is0", "cref:c2"};
+        static std::vector<std::string> k = {"model", "encap", "units:u0", "unit:u0[0]", "units:u1", "comp:c0", "cref:c0", "var:v0", "map:v0~v1", "conn:c0~c1", "reset:r0", "tv:r0", "rv:r0", "comp:c1", "cref:c1", "var:v1", "comp:c2", "import:is0", "cref:c2",
+                                              "comp:c4", "cref:c4", "var:v3", "map:v3~v4", "conn:c4~c5", "reset:r1", "tv:r1", "rv:r1", "comp:c5", "cref:c5", "var:v4"};
         return k;
     }
     void setByKey(const std::string &k, const std::string &id)
@@ -381,25 +413,39 @@ struct Universe
         else if (k == "comp:c2") c2->setId(id);
         else if (k == "import:is0") is0->setId(id);
         else if (k == "cref:c2") c2->setEncapsulationId(id);
+        else if (k == "comp:c4") c4->setId(id);
+        else if (k == "cref:c4") c4->setEncapsulationId(id);
+        else if (k == "var:v3") v3->setId(id);
+        else if (k == "map:v3~v4") Variable::setEquivalenceMappingId(v3, v4, id);
+        else if (k == "conn:c4~c5") Variable::setEquivalenceConnectionId(v3, v4, id);
+        else if (k == "reset:r1") r1->setId(id);
+        else if (k == "tv:r1") r1->setTestValueId(id);
+        else if (k == "rv:r1") r1->setResetValueId(id);
+        else if (k == "comp:c5") c5->setId(id);
+        else if (k == "cref:c5") c5->setEncapsulationId(id);
+        else if (k == "var:v4") v4->setId(id);
     }
 
     // ---- the items assignId can be called with
-    static constexpr int NITEM = 25;
+    static constexpr int NITEM = 37; // 25..36: items below the imported component and its own component_ref
     static const char *itemName(int k)
     {
         static const char *N[] = {"m0,MODEL", "m0,ENCAPSULATION", "c0,COMPONENT", "c1,COMPONENT", "c2,COMPONENT", "c0,COMPONENT_REF", "c1,COMPONENT_REF", "v0", "v1", "v0,v1,MAP_VARIABLES", "v0,v1,CONNECTION",
-                                  "u0", "u1", "u0,0", "r0,RESET", "r0,TEST_VALUE", "r0,RESET_VALUE", "is0", "v2", "w0-of-other-model", "fis-of-other-model", "u0,7-out-of-range", "null-variable", "null-units-item", "AnyCellmlElement{VARIABLE holding a Component}"};
+                                  "u0", "u1", "u0,0", "r0,RESET", "r0,TEST_VALUE", "r0,RESET_VALUE", "is0", "v2", "w0-of-other-model", "fis-of-other-model", "u0,7-out-of-range", "null-variable", "null-units-item", "AnyCellmlElement{VARIABLE holding a Component}",
+                                  "c4,COMPONENT", "c4,COMPONENT_REF", "v3", "v3,v4,MAP_VARIABLES", "v3,v4,CONNECTION", "r1,RESET", "r1,TEST_VALUE", "r1,RESET_VALUE", "c5,COMPONENT", "c5,COMPONENT_REF", "v4", "c2,COMPONENT_REF"};
         return N[k];
     }
     // key of the carrier the item denotes (empty: denotes nothing that can exist in a model), and its kind
     static std::string itemKey(int k)
     {
-        static const char *K[] = {"model", "encap", "comp:c0", "comp:c1", "comp:c2", "cref:c0", "cref:c1", "var:v0", "var:v1", "map:v0~v1", "conn:c0~c1", "units:u0", "units:u1", "unit:u0[0]", "reset:r0", "tv:r0", "rv:r0", "import:is0", "var:v2", "var:w0", "import:fis", "", "", "", ""};
+        static const char *K[] = {"model", "encap", "comp:c0", "comp:c1", "comp:c2", "cref:c0", "cref:c1", "var:v0", "var:v1", "map:v0~v1", "conn:c0~c1", "units:u0", "units:u1", "unit:u0[0]", "reset:r0", "tv:r0", "rv:r0", "import:is0", "var:v2", "var:w0", "import:fis", "", "", "", "",
+                                  "comp:c4", "cref:c4", "var:v3", "map:v3~v4", "conn:c4~c5", "reset:r1", "tv:r1", "rv:r1", "comp:c5", "cref:c5", "var:v4", "cref:c2"};
         return K[k];
     }
     static const char *itemKind(int k)
     {
-        static const char *K[] = {"MODEL", "ENCAPSULATION", "COMPONENT", "COMPONENT", "COMPONENT", "COMPONENT_REF", "COMPONENT_REF", "VARIABLE", "VARIABLE", "MAP_VARIABLES", "CONNECTION", "UNITS", "UNITS", "UNIT", "RESET", "TEST_VALUE", "RESET_VALUE", "IMPORT", "VARIABLE", "VARIABLE", "IMPORT", "UNIT", "VARIABLE", "UNIT", "VARIABLE"};
+        static const char *K[] = {"MODEL", "ENCAPSULATION", "COMPONENT", "COMPONENT", "COMPONENT", "COMPONENT_REF", "COMPONENT_REF", "VARIABLE", "VARIABLE", "MAP_VARIABLES", "CONNECTION", "UNITS", "UNITS", "UNIT", "RESET", "TEST_VALUE", "RESET_VALUE", "IMPORT", "VARIABLE", "VARIABLE", "IMPORT", "UNIT", "VARIABLE", "UNIT", "VARIABLE",
+                                  "COMPONENT", "COMPONENT_REF", "VARIABLE", "MAP_VARIABLES", "CONNECTION", "RESET", "TEST_VALUE", "RESET_VALUE", "COMPONENT", "COMPONENT_REF", "VARIABLE", "COMPONENT_REF"};
         return K[k];
     }
     std::string assignItem(int k)
@@ -435,6 +481,18 @@ struct Universe
             e->mPimpl->mItem = c0;
             return ann->assignId(e);
         }
+        case 25: return ann->assignId(c4, CellmlElementType::COMPONENT);
+        case 26: return ann->assignId(c4, CellmlElementType::COMPONENT_REF);
+        case 27: return ann->assignId(v3);
+        case 28: return ann->assignId(v3, v4, CellmlElementType::MAP_VARIABLES);
+        case 29: return ann->assignId(VariablePair::create(v4, v3), CellmlElementType::CONNECTION);
+        case 30: return ann->assignId(r1, CellmlElementType::RESET);
+        case 31: return ann->assignId(r1, CellmlElementType::TEST_VALUE);
+        case 32: return ann->assignId(r1, CellmlElementType::RESET_VALUE);
+        case 33: return ann->assignId(c5, CellmlElementType::COMPONENT);
+        case 34: return ann->assignId(c5, CellmlElementType::COMPONENT_REF);
+        case 35: return ann->assignId(v4);
+        case 36: return ann->assignId(c2, CellmlElementType::COMPONENT_REF);
         }
         return "";
     }
@@ -649,7 +707,8 @@ struct AnnWorld
         static std::vector<Op> o;
         if (o.empty()) {
             if (ALPHA == 0) {
-                for (int c = 0; c < Universe::NCARRIER; ++c) for (int v = 0; v < 4; ++v) o.push_back({EDIT, c, v});
+                for (int c = 0; c < 16; ++c) for (int v = 0; v < 4; ++v) o.push_back({EDIT, c, v});
+                for (int c = 16; c < Universe::NCARRIER; ++c) for (int v : {1, 2}) o.push_back({EDIT, c, v}); // below the import: "a" and the next automatic id
                 for (int v = 0; v < 2; ++v) o.push_back({ADD, v, 0});
                 for (int r = 0; r < 5; ++r) o.push_back({RM, r, 0});
                 o.push_back({DESTROY, 0, 0});
@@ -663,7 +722,7 @@ struct AnnWorld
             } else {
                 // core alphabet for the deeper search: the carriers the cache treats differently (hash-visible v0/model/unit/is0,
                 // hash-invisible mapping/connection), one add, two removes, every assign* shape
-                for (int c : {0, 5, 7, 8, 11, 15}) for (int v : {1, 2}) o.push_back({EDIT, c, v});
+                for (int c : {0, 5, 7, 8, 11, 15, 16, 18}) for (int v : {1, 2}) o.push_back({EDIT, c, v}); // 16, 18: component and variable below the import
                 o.push_back({EDIT, 5, 0});
                 o.push_back({EDIT, 7, 0});
                 o.push_back({ADD, 0, 0});
@@ -674,7 +733,7 @@ struct AnnWorld
                 o.push_back({ASSIGN_ALL_M, 0, 0});
                 o.push_back({ASSIGN_ALL_M, 2, 0});
                 for (auto t : {CellmlElementType::COMPONENT, CellmlElementType::VARIABLE, CellmlElementType::CONNECTION, CellmlElementType::MAP_VARIABLES, CellmlElementType::IMPORT, CellmlElementType::UNIT, CellmlElementType::MODEL}) o.push_back({ASSIGN_IDS, int(t), 0});
-                for (int i : {7, 9, 10, 13, 17, 20, 21}) o.push_back({ASSIGN_ID, i, 0});
+                for (int i : {7, 9, 10, 13, 17, 20, 21, 25, 27}) o.push_back({ASSIGN_ID, i, 0});
                 o.push_back({CLEAR, 0, 0});
             }
         }
@@ -1011,7 +1070,7 @@ const std::vector<std::string> &menu()
 }
 int preK() { const char *t = getenv("VERIF_TIER"); return (t && std::string(t) == "thorough") ? 2 : 1; }
 uint64_t choose(uint64_t n, uint64_t k) { uint64_t r = 1; for (uint64_t i = 0; i < k; ++i) r = r * (n - i) / (i + 1); return r; }
-constexpr int NASSIGN = 1 + 1 + 15 + 19; // assignAllIds(), assignAllIds(model), assignIds(type), assignId(each pristine carrier)
+const int NASSIGN = 1 + 1 + 15 + int(Universe::pristineKeys().size()); // assignAllIds(), assignAllIds(model), assignIds(type), assignId(each pristine carrier)
 struct PreCase
 {
     std::vector<int> carriers; // indices into pristineKeys
